@@ -116,6 +116,7 @@ fn malformed_is_strict(k: u8) -> bool {
 struct Live {
     addr: std::net::SocketAddr,
     server: Option<dropshot::HttpServer<LifeCtx>>,
+    tls: bool,
 }
 
 async fn finish(conn: http1::Conn, end: &End) {
@@ -150,8 +151,11 @@ async fn read_all_responses(conn: &mut http1::Conn, quiet: Duration, max: usize)
     }
 }
 
-async fn run_script(addr: std::net::SocketAddr, s: Script, id: u64) -> Result<(String, Vec<u16>), Failure> {
-    let mut conn = http1::Conn::connect(addr).await.map_err(|e| Failure::new("connect", format!("server does not accept connections: {}", e)))?;
+async fn run_script(addr: std::net::SocketAddr, tls_server: bool, s: Script, id: u64) -> Result<(String, Vec<u16>), Failure> {
+    // against an HTTPS server half of the scripts run inside an established TLS session,
+    // the other half are thrown at the TLS layer itself
+    let inside_tls = tls_server && (id % 2 == 0 || matches!(s, Script::Valid(_) | Script::Panic | Script::Malformed(..)));
+    let mut conn = http1::Conn::connect_with(addr, inside_tls).await.map_err(|e| Failure::new("connect", format!("server does not accept connections: {}", e)))?;
     let quiet = Duration::from_millis(match &s {
         Script::Malformed(..) | Script::BadUpgrade(_) => 60,
         Script::Oversized(_) => 400,
@@ -217,7 +221,8 @@ async fn run_script(addr: std::net::SocketAddr, s: Script, id: u64) -> Result<(S
     // the server may answer and close while we are still writing
     let _ = conn.send_split(&bytes, &[bytes.len() / 2], 0).await;
     let mut statuses = vec![];
-    if skip_grammar {
+    if skip_grammar || (tls_server && !inside_tls) {
+        // whatever comes back is TLS, not HTTP
         let _ = conn.read_to_end(quiet).await;
     } else {
         match read_all_responses(&mut conn, quiet, max_responses).await {
@@ -251,11 +256,11 @@ async fn run_script(addr: std::net::SocketAddr, s: Script, id: u64) -> Result<(S
         }
     }
     finish(conn, &end).await;
-    Ok((class, statuses))
+    Ok((if tls_server && !inside_tls { format!("raw-to-tls:{}", class) } else { class }, statuses))
 }
 
-async fn health(addr: std::net::SocketAddr, context: &str) -> Result<(), Failure> {
-    let h = http1::oneshot(addr, &http1::build_request("GET", "/health", &[], None), false, Duration::from_secs(10))
+async fn health(addr: std::net::SocketAddr, tls: bool, context: &str) -> Result<(), Failure> {
+    let h = http1::oneshot_with(addr, tls, &http1::build_request("GET", "/health", &[], None), false, Duration::from_secs(10))
         .await
         .map_err(|e| Failure::new("server-unhealthy", format!("health probe on a fresh connection after {}: {}", context, e)))?;
     ensure!(h.status == 200 && h.body == b"\"ok\"", "server-unhealthy", "health probe after {}: {} {:?}", context, h.status, h.body_text());
@@ -264,20 +269,21 @@ async fn health(addr: std::net::SocketAddr, context: &str) -> Result<(), Failure
 
 fn check_batch(live: &Live, rt: &tokio::runtime::Runtime, batch: &Vec<Script>, st: &mut Stats) -> Result<(), Failure> {
     let addr = live.addr;
+    let tls = live.tls;
     rt.block_on(async {
         let mut handles = vec![];
         for (i, s) in batch.iter().cloned().enumerate() {
-            handles.push(tokio::spawn(async move { run_script(addr, s, 1000 + i as u64).await }));
+            handles.push(tokio::spawn(async move { run_script(addr, tls, s, 1000 + i as u64).await }));
         }
         // valid traffic interleaved with the faulty connections
-        let probe = tokio::spawn(async move { health(addr, "concurrent faulty connections").await });
+        let probe = tokio::spawn(async move { health(addr, tls, "concurrent faulty connections").await });
         let mut classes = vec![];
         for h in handles {
             let (class, statuses) = h.await.map_err(|e| Failure::new("client-task", e.to_string()))??;
             classes.push((class, statuses));
         }
         probe.await.map_err(|e| Failure::new("client-task", e.to_string()))??;
-        health(addr, &format!("{:?}", classes)).await?;
+        health(addr, tls, &format!("{:?}", classes)).await?;
         for (i, (class, statuses)) in classes.iter().enumerate() {
             st.eval();
             st.count(&format!("class:{}", class.split(':').next().unwrap()));
@@ -305,11 +311,38 @@ pub fn run(ctx: &mut Ctx) {
         let _g = srt.enter();
         let cfg = dropshot::ConfigDropshot { default_request_body_max_bytes: 1 << 20, ..Default::default() };
         let server = start_server(life_api(), LifeCtx::default(), cfg, None).expect("server");
-        Live { addr: server.local_addr(), server: Some(server) }
+        Live { addr: server.local_addr(), server: Some(server), tls: false }
     };
+    let mut live_tls = {
+        let _g = srt.enter();
+        let cfg = dropshot::ConfigDropshot { default_request_body_max_bytes: 1 << 20, ..Default::default() };
+        let server = crate::dynapi::start_server_tls(life_api(), LifeCtx::default(), cfg).expect("https server");
+        Live { addr: server.local_addr(), server: Some(server), tls: true }
+    };
+    // connections that stall for the whole run: they connect and then say nothing (on the HTTPS
+    // server one of them stops in the middle of the TLS handshake).  Every health probe of every
+    // batch below has to get through while these are being held.
+    let stalled: Vec<tokio::net::TcpStream> = rt.block_on(async {
+        use tokio::io::AsyncWriteExt;
+        let mut v = vec![];
+        for (addr, hello) in [(live.addr, false), (live.addr, true), (live_tls.addr, false), (live_tls.addr, true)] {
+            if let Ok(mut s) = tokio::net::TcpStream::connect(addr).await {
+                if hello {
+                    // the first bytes of a request line / of a TLS ClientHello, never completed
+                    let _ = s.write_all(if addr == live.addr { b"GET /hea" } else { &[0x16, 0x03, 0x01, 0x02, 0x00, 0x01, 0x00] }).await;
+                }
+                v.push(s);
+            }
+        }
+        v
+    });
+    ctx.assume("four connections that stall forever (two mid-request / mid-TLS-handshake) are held open during all phases");
     let n = ctx.tier.pick(700, 12000);
     ctx.phase("batches", n, proptest::collection::vec(script(), 1..8), |b, st| check_batch(&live, &rt, b, st));
     ctx.require_frac("batches", "answered", "class:malformed", 0.5);
+    // the same scripts against an HTTPS server: half inside a TLS session, half thrown at the TLS layer
+    let n = ctx.tier.pick(250, 4000);
+    ctx.phase("batches_https", n, proptest::collection::vec(script(), 1..8), |b, st| check_batch(&live_tls, &rt, b, st));
     // every truncation offset of the fixed valid requests (thorough), every 7th in quick
     let step = ctx.tier.pick(7, 1);
     let mut cases: Vec<Vec<Script>> = vec![];
@@ -328,6 +361,12 @@ pub fn run(ctx: &mut Ctx) {
     let cases: Vec<Vec<Script>> = (0..N_MALFORMED).map(|k| vec![Script::Malformed(k, End::Silence(5))]).collect();
     ctx.enumerate("every_malformed_kind", cases, true, |b, st| check_batch(&live, &rt, b, st));
     // (4) clean close
+    drop(stalled);
+    if let Some(server) = live_tls.server.take() {
+        if srt.block_on(async { tokio::time::timeout(Duration::from_secs(30), server.close()).await }).is_err() {
+            ctx.harness_error("the HTTPS server did not shut down within 30 s after the hostile traffic (liveness: reported as inconclusive)".into());
+        }
+    }
     let server = live.server.take().unwrap();
     match srt.block_on(async { tokio::time::timeout(Duration::from_secs(30), server.close()).await }) {
         Ok(Ok(())) => {}
